@@ -33,10 +33,31 @@ class Ctx:
         self.build_errors = []
 
     def prefetch(self):
+        # the cross-target configuration needs core and alloc built from rust-src (-Zbuild-std): if that tooling is not usable
+        # where the check runs although the same tree type-checks for the host without std, the configuration is skipped with a
+        # note - an environment limitation must not be reported as a property violation
+        self.skipped_configs = []
+        cross = [c for c in self.configs if c[0] in extract.TARGET_OF]
+        host = [c for c in self.configs if c[0] not in extract.TARGET_OF]
         try:
-            extract.extract_many(self.configs)
+            extract.extract_many(host)
         except extract.BuildError as e:
             self.build_errors.append(str(e))
+            return
+        for c in cross:
+            try:
+                extract.facts_path(c[0], c[1])
+            except extract.BuildError as e:
+                msg = str(e)
+                # a failure that points into the analysed crate's own sources is the tree's; anything else (no rust-src, no
+                # vendored dependency of the standard library, no disk space ...) is the environment's
+                in_tree = ("--> src/" in msg) or ("--> " + extract.repo() in msg) or ("could not compile `triomphe`" in msg)
+                toolchain = not in_tree
+                if toolchain:
+                    self.skipped_configs.append((c, msg[-400:]))
+                    self.configs = [x for x in self.configs if x != c]
+                else:
+                    self.build_errors.append(msg)
 
     def facts(self, cfg, da=False):
         k = (cfg, da)
@@ -179,6 +200,8 @@ def run_property(prop, level, fn, argv, explanation, rule_text, trusted_base, as
 
             tb = traceback.format_exc()
             rep.bad("ANALYSIS-ERROR", "internal", "the analysis could not be completed on this tree (fail closed): " + tb.strip().splitlines()[-1], None, None, detail=tb)
+    for c, why in getattr(ctx, "skipped_configs", []):
+        rep.notes.append("configuration %s could not be built in this environment (cross-target std sources unavailable) and was skipped: %s" % (c[0], why.replace("\n", " ")[:300]))
     rep.finalize()
 
     known = load_known()
